@@ -63,3 +63,8 @@
   #define TUP_GET(t, i) ((t).e##i)
 #endif
 #endif
+/* macro-expanded universal quantifier over the CAP=8 positions (P is a one-argument macro) */
+#ifndef ALL8
+#define ALL8(P) (P(0UL) && P(1UL) && P(2UL) && P(3UL) && P(4UL) && P(5UL) && P(6UL) && P(7UL))
+#define ANY8(P) (P(0UL) || P(1UL) || P(2UL) || P(3UL) || P(4UL) || P(5UL) || P(6UL) || P(7UL))
+#endif
